@@ -216,13 +216,105 @@ def semantic_validity(C, R):
         R.ok("r3", "family/%s" % fam, nontrivial=True)
 
 
+# r4: recursion inventory. BOUNDED = depth limited by a constant of the code; DEPTH = depth grows with the nesting / length of the
+# query text (a stack overflow aborts the process - worse than a panic - unless something limits the depth first)
+RECURSION_AUDIT = {
+    ("ir::types::base::Type::equal_ignoring_nullability",): ("BOUNDED", "one level per list layer, at most MAX_LIST_DEPTH = 30"),
+    ("ir::types::base::Type::is_scalar_only_subtype",): ("BOUNDED", "one level per list layer (<= 30)"),
+    ("ir::types::base::Type::intersect_impl",): ("BOUNDED", "one level per list layer (<= 30)"),
+    ("<ir::types::base::Type as core::fmt::Debug>::fmt",): ("BOUNDED", "Debug -> Display, one hop"),
+    ("<frontend::error::FrontendError as core::convert::From<alloc::vec::Vec<frontend::error::FrontendError>>>::from",):
+        ("BOUNDED", "recursion only on the single-element case: at most one hop"),
+    ("ir::types::base::Type::is_valid_value",): ("DEPTH", "one level per list layer of the *value* (a nested list literal in the query)"),
+    ("<ir::value::FieldValue as core::convert::TryFrom<async_graphql_value::Value>>::try_from",): ("DEPTH", "nested list literal"),
+    ("frontend::collect_ir_vertices_recursive_step",): ("DEPTH", "one level per nested @fold"),
+    ("ir::indexed::add_data_from_component",): ("DEPTH", "one level per nested @fold"),
+    ("frontend::fill_in_vertex_data", "frontend::make_fold", "frontend::make_query_component"): ("DEPTH", "one level per nested selection / @fold"),
+    ("frontend::validation::validate_field",): ("DEPTH", "one level per nested selection"),
+    ("frontend::fill_in_query_variables",): ("DEPTH", "one level per nested @fold"),
+    ("graphql_query::query::make_transform_group",): ("DEPTH", "one level per @transform in a chain"),
+    ("graphql_query::query::make_field_node",): ("DEPTH", "one level per nested selection"),
+}
+
+
+def recursion_inventory(C, R, seen, g):
+    R.rule("r4", "recursion reachable from parse: every cycle is audited; recursion whose depth grows with the query text needs a depth limit")
+    import sys
+    nodes = {s for s in seen if "::tests::" not in s}
+    idx, low, st, on, comps = {}, {}, [], set(), []
+    c = [0]
+    sys.setrecursionlimit(20000)
+
+    def sc(v):
+        idx[v] = low[v] = c[0]
+        c[0] += 1
+        st.append(v)
+        on.add(v)
+        for w in g.edges.get(v, ()):
+            if w not in nodes:
+                continue
+            if w not in idx:
+                sc(w)
+                low[v] = min(low[v], low[w])
+            elif w in on:
+                low[v] = min(low[v], idx[w])
+        if low[v] == idx[v]:
+            comp = []
+            while True:
+                w = st.pop()
+                on.discard(w)
+                comp.append(w)
+                if w == v:
+                    break
+            if len(comp) > 1 or v in g.edges.get(v, ()):
+                comps.append(comp)
+    for v in sorted(nodes):
+        if v not in idx:
+            sc(v)
+    T_ = "trustfall_core::"
+    depth_cycles = []
+    for comp in comps:
+        names = tuple(sorted(x.replace(T_, "") for x in comp))
+        if any("FieldValue as core::cmp::PartialEq" in n for n in names):
+            # the FieldValue conversion / comparison cluster: one level per list layer of a value
+            depth_cycles.append("FieldValue conversions")
+            R.ok("r4", "cycle/FieldValue-conversions", {"class": "DEPTH", "members": len(names)})
+            continue
+        ent = RECURSION_AUDIT.get(names)
+        key = "cycle/%s" % "+".join(n.split("::")[-1] for n in names)
+        if ent is None:
+            R.fail("r4", "unaudited-" + key, "-", "recursive cycle %s is reachable from frontend::parse and is not audited: say what bounds its depth" % (names,))
+            continue
+        R.ok("r4", key, {"class": ent[0], "reason": ent[1]})
+        if ent[0] == "DEPTH":
+            depth_cycles.append(names[0].split("::")[-1])
+    R.floor("r4", "recursive cycles reachable from parse", len(comps), 10)
+    # is there a nesting / length limit before the recursion starts? (a comparison of a depth or length counter against a limit that
+    # returns an error in parse_to_ir / parse_document) - none on today's tree
+    guard = False
+    for name in ("trustfall_core::frontend::parse_to_ir", "trustfall_core::graphql_query::query::parse_document"):
+        f = C.fn(name)
+        if f is None:
+            continue
+        for n in walk(f["body"]):
+            if n.get("k") == "if" and any(w in ekey(n["cond"]).lower() for w in ("depth", "nesting", "max_len", "limit")) and \
+                    any(x.get("k") == "ret" for x in walk(n["then"])):
+                guard = True
+    R.check(guard or not depth_cycles, "r4", "no-nesting-limit", "-",
+            "%d recursive cycles reachable from frontend::parse recurse once per nesting level / chain element of the query text (%s) and "
+            "nothing limits that depth first - the GraphQL parser dependency recurses the same way: a long @transform chain or a deeply nested "
+            "list literal overflows the stack and aborts the process instead of returning an error" % (len(depth_cycles), ", ".join(depth_cycles[:8])),
+            {"depth_cycles": depth_cycles})
+
+
 def run(ctx, R):
     C = ctx.core
     R.rule("r1", "reachable panic-capable constructs = audited set (class + reason per entry)")
     R.rule("r2", "guards the audit relies on are structurally in place")
     R.rule("r3", "filter type validation never panics (abstract evaluation over operators x types x right-hand sides)")
-    rk3.run_inventory(C, R, ENTRIES, panic_audit.C10)
+    inv, seen, parent, g = rk3.run_inventory(C, R, ENTRIES, panic_audit.C10)
     R.floor("r1", "audited keys for the frontend", len(panic_audit.C10), 80)
+    recursion_inventory(C, R, seen, g)
     guards(C, R)
     semantic_validity(C, R)
     # audit entries of class INVARIANT name C11 clauses (tag handler / id generators / indexer): re-evaluate them here, a
